@@ -256,6 +256,7 @@ class Executor:
                 # an access *into* an abstracted aggregate (e.g. p.x of an abstract Point): the abstract value is split
                 # into per-field component tokens; it is re-assembled when all components of one value meet again
                 t = self._type_at(p, nxt)
+                self._cur_path = path
                 nxt = nxt.opaque_explode(self, t)
                 c[idx] = nxt
             c = nxt
